@@ -8,24 +8,33 @@ namespace Pymeeus.Effects
 
 /-- The abstract state describes the concrete environment and the receiver's attributes. -/
 structure Rel (n0 : Nat) (args : List Val) (h : Heap) (s : AState) (e : Env) : Prop where
+  live : s.dead = false
   env : ∀ x, Gam n0 args h (AList.get s.env x) (e x)
   fld : ∀ id, args.getD 0 .scalar = .ref id → ∀ f, Gam n0 args h (AList.get s.fld f) (h.obj id f)
 
 theorem rel_le {n0 args h s1 s2 e} (hle : AState.le s1 s2 = true) (hr : Rel n0 args h s1 e) :
     Rel n0 args h s2 e := by
-  simp only [AState.le, Bool.and_eq_true] at hle
-  exact ⟨fun x => gam_le (alist_le_spec hle.1 x) (hr.env x),
+  simp only [AState.le, hr.live, Bool.false_or, Bool.and_eq_true, Bool.not_eq_true'] at hle
+  exact ⟨hle.1.1, fun x => gam_le (alist_le_spec hle.1.2 x) (hr.env x),
          fun id hid f => gam_le (alist_le_spec hle.2 f) (hr.fld id hid f)⟩
 
 theorem rel_join_left {n0 args h s1 e} (s2 : AState) (hr : Rel n0 args h s1 e) :
-    Rel n0 args h (s1.join s2) e :=
-  ⟨fun x => gam_le (alist_join_left _ _ x) (hr.env x),
-   fun id hid f => gam_le (alist_join_left _ _ f) (hr.fld id hid f)⟩
+    Rel n0 args h (s1.join s2) e := by
+  unfold AState.join
+  simp only [hr.live, Bool.false_eq_true, if_false]
+  split
+  · exact hr
+  · exact ⟨rfl, fun x => gam_le (alist_join_left _ _ x) (hr.env x),
+      fun id hid f => gam_le (alist_join_left _ _ f) (hr.fld id hid f)⟩
 
 theorem rel_join_right {n0 args h s2 e} (s1 : AState) (hr : Rel n0 args h s2 e) :
-    Rel n0 args h (s1.join s2) e :=
-  ⟨fun x => gam_le (alist_join_right _ _ x) (hr.env x),
-   fun id hid f => gam_le (alist_join_right _ _ f) (hr.fld id hid f)⟩
+    Rel n0 args h (s1.join s2) e := by
+  unfold AState.join
+  split
+  · exact hr
+  · simp only [hr.live, Bool.false_eq_true, if_false]
+    exact ⟨rfl, fun x => gam_le (alist_join_right _ _ x) (hr.env x),
+      fun id hid f => gam_le (alist_join_right _ _ f) (hr.fld id hid f)⟩
 
 theorem gam_set {n0 args h} {l : AList} {e : Env} (x : Nat) {a v}
     (hl : ∀ y, Gam n0 args h (AList.get l y) (e y)) (hg : Gam n0 args h a v) :
@@ -43,7 +52,7 @@ theorem gam_set {n0 args h} {l : AList} {e : Env} (x : Nat) {a v}
 
 theorem rel_setVar {n0 args h s e} (x : Var) {a v} (hr : Rel n0 args h s e)
     (hg : Gam n0 args h a v) : Rel n0 args h (s.setVar x a) (e.set x v) :=
-  ⟨gam_set x hr.env hg, hr.fld⟩
+  ⟨hr.live, gam_set x hr.env hg, hr.fld⟩
 
 /-! ### Loop invariants computed by `iter` -/
 
@@ -116,7 +125,7 @@ theorem rel_transport {n0 args h h' s e} (hk : Keep n0 h h') (hn : n0 ≤ h.next
     (hargs : ∀ i, WFVal n0 (args.getD i .scalar)) (hw : WFHeap h) (he : WFEnv h e)
     (hself : ∀ id, args.getD 0 .scalar = .ref id → h'.obj id = h.obj id)
     (hr : Rel n0 args h s e) : Rel n0 args h' s e := by
-  refine ⟨fun x => gam_keep hk (he x) (hr.env x), ?_⟩
+  refine ⟨hr.live, fun x => gam_keep hk (he x) (hr.env x), ?_⟩
   intro id hid f
   rw [hself id hid]
   have hlt : id < h.next := Nat.lt_of_lt_of_le (hargs 0 id hid) hn
@@ -151,6 +160,10 @@ theorem storeFld_env (s : AState) (ax sel ay) : (s.storeFld ax sel ay).env = s.e
   unfold AState.storeFld
   split <;> rfl
 
+theorem storeFld_dead (s : AState) (ax sel ay) : (s.storeFld ax sel ay).dead = s.dead := by
+  unfold AState.storeFld
+  split <;> rfl
+
 theorem write_obj_ne {h : Heap} {id k v i} (hne : i ≠ id) : (h.write id k v).obj i = h.obj i := by
   simp [Heap.write, hne]
 
@@ -162,6 +175,7 @@ theorem write_obj_same (h : Heap) (id k v f) :
 theorem rel_storeFld {n0 args} {h : Heap} {s1 : AState} {e : Env} {ax : AVal} {sel : Sel} {ay : AVal}
     {id k : Nat} {me : Summary} {vy : Val}
     (hargs : ∀ i, WFVal n0 (args.getD i .scalar))
+    (hlive : s1.dead = false)
     (hwr : writable me ax = true)
     (hax : Gam n0 args h ax (.ref id))
     (hpick : sel.picks k)
@@ -170,7 +184,7 @@ theorem rel_storeFld {n0 args} {h : Heap} {s1 : AState} {e : Env} {ax : AVal} {s
       ∀ f, Gam n0 args (h.write id k vy) (AList.get s1.fld f) (h.obj sid f))
     (hay : Gam n0 args (h.write id k vy) ay vy) :
     Rel n0 args (h.write id k vy) (s1.storeFld ax sel ay) e := by
-  refine ⟨fun x => by rw [storeFld_env]; exact henv x, ?_⟩
+  refine ⟨by rw [storeFld_dead]; exact hlive, fun x => by rw [storeFld_env]; exact henv x, ?_⟩
   intro sid hsid f
   have hsidlt : sid < n0 := hargs 0 sid hsid
   cases ax with
@@ -253,7 +267,7 @@ theorem store_post {n0 args me} {h : Heap} {s s' : AState} {e : Env} {x y : Var}
       subst ha
       have hk : Keep n0 h (h.write id k (e y)) := keep_write hst (hr.env y)
       refine ⟨hframe, fun _ => hk, ?_⟩
-      refine rel_storeFld hargs hwr hax hp (fun v => gam_keep hk (he v) (hr.env v)) ?_
+      refine rel_storeFld hargs hr.live hwr hax hp (fun v => gam_keep hk (he v) (hr.env v)) ?_
         (gam_keep hk (he y) (hr.env y))
       intro sid hsid f
       exact gam_keep hk (hw sid f (Nat.lt_of_lt_of_le (hargs 0 sid hsid) hn)) (hr.fld sid hsid f)
@@ -265,7 +279,7 @@ theorem store_post {n0 args me} {h : Heap} {s s' : AState} {e : Env} {x y : Var}
         refine ⟨hframe, fun hk => absurd hk hkp, ?_⟩
         have hne : AList.get s.env y ≠ .closed := by
           intro hc; rw [hc] at hst; simp [AVal.storable] at hst
-        refine rel_storeFld hargs hwr hax hp ?_ ?_ (gam_heap_indep hne (hr.env y))
+        refine rel_storeFld hargs hr.live hwr hax hp ?_ ?_ (gam_heap_indep hne (hr.env y))
         · intro v
           simp only [AState.degrade, alist_get_map_degrade]
           exact gam_degrade (hr.env v)
@@ -372,13 +386,15 @@ theorem call_post {n0 args me cs} {h h' : Heap} {s s' : AState} {e : Env} {x : V
       intro hk
       by_cases hany : (cs.writes.any fun i => (AList.get (ys.map (AList.get s.env)) i).isParam) = true
       · rw [← hs1]; simp only [hany, if_true]
-        refine ⟨fun v => gam_keep hk (he v) (hr.env v), ?_⟩
+        refine ⟨hr.live, fun v => gam_keep hk (he v) (hr.env v), ?_⟩
         intro sid _ f
         simp only [AState.forget, alist_get_map_any]; trivial
       · rw [← hs1]; simp only [hany, Bool.false_eq_true, if_false]
         exact rel_transport hk hn hargs hw he (hself (by simpa using hany)) hr
+    have hs1live : s1.dead = false := by
+      rw [← hs1]; split <;> exact hr.live
     have hrel2 : Rel n0 args h' s1.degrade e := by
-      refine ⟨?_, ?_⟩
+      refine ⟨hs1live, ?_, ?_⟩
       · intro v
         simp only [AState.degrade, alist_get_map_degrade, hs1env]
         exact gam_degrade (hr.env v)
@@ -425,7 +441,7 @@ theorem sums_get {P : Program} {g : Nat} {fd : FunDecl} (h : P.funs[g]? = some f
 
 theorem entry_rel (nf : Nat) (fd : FunDecl) (n0 : Nat) (vals : List Val) (h : Heap) :
     Rel n0 vals h (entryState nf fd) (entryEnv fd.nparams vals) := by
-  refine ⟨?_, ?_⟩
+  refine ⟨rfl, ?_, ?_⟩
   · intro x
     unfold entryState entryEnv AList.get
     simp only [List.getD_eq_getElem?_getD]
